@@ -110,14 +110,14 @@ Section Log.
     - intros t _. now rewrite H0.
   Qed.
 
-  Lemma step_gext n l n' : inv1 V n -> inv2 n -> step V n l n' -> gext n n'.
+  Lemma step_gext n l n' : inv1 n -> inv2 n -> fresh n l -> step V n l n' -> gext n n'.
   Proof.
-    intros H1 H2 Hstep.
+    intros H1 H2 Hf Hstep.
     pose proof (step_msgs_incl V n l n' Hstep) as Hincl.
     inversion Hstep; subst; repeat match goal with x := _ |- _ => subst x end;
       try (apply gext_refl_ghost; [exact Hincl | reflexivity ..]).
     - (* BecomeLeader *)
-      pose proof (candidate_quorum_not_led V V_nodup n i H1 H H0) as Hnone.
+      pose proof (Hf i eq_refl) as Hnone.
       destruct (i_lead_none n H2 _ Hnone) as (Hl & Hl0).
       repeat split; cbn [msgs lead llog llog0]; auto.
       + intros t c Hc. simp_updg; congruence.
@@ -228,19 +228,19 @@ Section Log.
 
   (* ---- preservation ---- *)
 
-  Lemma I_lead_none_step n l n' : inv1 V n -> inv2 n -> step V n l n' -> I_lead_none n'.
+  Lemma I_lead_none_step n l n' : inv1 n -> inv2 n -> fresh n l -> step V n l n' -> I_lead_none n'.
   Proof.
-    intros H1 H2 Hstep t.
+    intros H1 H2 Hf Hstep t.
     pose proof (i_lead_none n H2 t) as Hold.
     inv_step Hstep; auto.
     - simp_updg; intros Hl; [discriminate | auto].
     - intros Hl. simp_updg; auto.
-      rewrite (i_leader V n H1 i) in Hl by assumption. discriminate.
+      rewrite (i_leader n H1 i) in Hl by assumption. discriminate.
   Qed.
 
-  Lemma I_llog0_step n l n' : inv1 V n -> inv2 n -> step V n l n' -> I_llog0 n'.
+  Lemma I_llog0_step n l n' : inv1 n -> inv2 n -> fresh n l -> step V n l n' -> I_llog0 n'.
   Proof.
-    intros H1 H2 Hstep t.
+    intros H1 H2 Hf Hstep t.
     pose proof (i_llog0 n H2 t) as Hold.
     inv_step Hstep; auto.
     - simp_updg; auto. exists []. now rewrite app_nil_r.
@@ -249,24 +249,24 @@ Section Log.
       eexists. now rewrite <- app_assoc.
   Qed.
 
-  Lemma I_llog_terms_step n l n' : inv1 V n -> inv2 n -> step V n l n' -> I_llog_terms n'.
+  Lemma I_llog_terms_step n l n' : inv1 n -> inv2 n -> fresh n l -> step V n l n' -> I_llog_terms n'.
   Proof.
-    intros H1 H2 Hstep t e.
+    intros H1 H2 Hf Hstep t e.
     pose proof (i_llog_terms n H2 t e) as Hold.
     inv_step Hstep; auto.
     - simp_updg; auto. intros He. apply in_app_or in He. destruct He as [He|[<-|[]]].
       + now apply (i_log_terms n H2 i).
-      + simpl. pose proof (i_role_term V n H1 i). split; [|lia].
+      + simpl. pose proof (i_role_term n H1 i). split; [|lia].
         match goal with H : _ -> 1 <= _ |- _ => apply H; congruence end.
     - simp_updg; auto. intros He. apply in_app_or in He. destruct He as [He|[<-|[]]].
       + now apply (i_log_terms n H2 i).
-      + simpl. pose proof (i_role_term V n H1 i). split; [|lia].
+      + simpl. pose proof (i_role_term n H1 i). split; [|lia].
         match goal with H : _ -> 1 <= _ |- _ => apply H; congruence end.
   Qed.
 
-  Lemma I_llog_sorted_step n l n' : inv1 V n -> inv2 n -> step V n l n' -> I_llog_sorted n'.
+  Lemma I_llog_sorted_step n l n' : inv1 n -> inv2 n -> fresh n l -> step V n l n' -> I_llog_sorted n'.
   Proof.
-    intros H1 H2 Hstep t.
+    intros H1 H2 Hf Hstep t.
     pose proof (i_llog_sorted n H2 t) as Hold.
     assert (Hsn : forall i e, eterm e = term (nodes n i) -> sorted (log (nodes n i) ++ [e])).
     { intros i e He. apply sorted_snoc.
@@ -275,10 +275,10 @@ Section Log.
     inv_step Hstep; auto; simp_updg; auto.
   Qed.
 
-  Lemma I_llog_ok_step n l n' : inv1 V n -> inv2 n -> step V n l n' -> I_llog_ok n'.
+  Lemma I_llog_ok_step n l n' : inv1 n -> inv2 n -> fresh n l -> step V n l n' -> I_llog_ok n'.
   Proof.
-    intros H1 H2 Hstep t.
-    pose proof (step_gext n l n' H1 H2 Hstep) as Hg.
+    intros H1 H2 Hf Hstep t.
+    pose proof (step_gext n l n' H1 H2 Hf Hstep) as Hg.
     pose proof (log_ok_gext n n' _ Hg (i_llog_ok n H2 t)) as Hold.
     pose proof (fun i => log_ok_gext n n' _ Hg (i_log_ok n H2 i)) as Hlog.
     inv_step Hstep; auto.
@@ -286,25 +286,25 @@ Section Log.
     - simp_updg; auto. apply log_ok_snoc; [apply Hlog|]. simpl. now rewrite updg_eq.
   Qed.
 
-  Lemma I_leader_log_step n l n' : inv1 V n -> inv2 n -> step V n l n' -> I_leader_log n'.
+  Lemma I_leader_log_step n l n' : inv1 n -> inv2 n -> fresh n l -> step V n l n' -> I_leader_log n'.
   Proof.
-    intros H1 H2 Hstep j.
+    intros H1 H2 Hf Hstep j.
     pose proof (i_leader_log n H2 j) as Hold.
     inv_step Hstep; simp_upd; intros Hr; auto; try discriminate.
     - now rewrite updg_eq.
     - simp_updg; auto. exfalso.
-      pose proof (i_leader V n H1 j Hr) as Hl. rewrite Eg in Hl.
-      rewrite (candidate_quorum_not_led V V_nodup n i) in Hl by assumption. discriminate.
+      pose proof (i_leader n H1 j Hr) as Hl. rewrite Eg in Hl.
+      rewrite (Hf i eq_refl) in Hl. discriminate.
     - now rewrite updg_eq.
     - simp_updg; auto. exfalso.
-      pose proof (i_leader V n H1 j Hr) as Hl. rewrite Eg in Hl.
-      rewrite (i_leader V n H1 i) in Hl by assumption. congruence.
+      pose proof (i_leader n H1 j Hr) as Hl. rewrite Eg in Hl.
+      rewrite (i_leader n H1 i) in Hl by assumption. congruence.
   Qed.
 
-  Lemma I_log_ok_step n l n' : inv1 V n -> inv2 n -> step V n l n' -> I_log_ok n'.
+  Lemma I_log_ok_step n l n' : inv1 n -> inv2 n -> fresh n l -> step V n l n' -> I_log_ok n'.
   Proof.
-    intros H1 H2 Hstep j.
-    pose proof (step_gext n l n' H1 H2 Hstep) as Hg.
+    intros H1 H2 Hf Hstep j.
+    pose proof (step_gext n l n' H1 H2 Hf Hstep) as Hg.
     pose proof (log_ok_gext n n' _ Hg (i_log_ok n H2 j)) as Hold.
     pose proof (fun t => log_ok_gext n n' _ Hg (i_llog_ok n H2 t)) as Hll.
     inv_step Hstep; simp_upd; auto.
@@ -318,11 +318,11 @@ Section Log.
     - apply log_ok_firstn. exact Hold.
   Qed.
 
-  Lemma I_log_terms_step n l n' : inv1 V n -> inv2 n -> step V n l n' -> I_log_terms n'.
+  Lemma I_log_terms_step n l n' : inv1 n -> inv2 n -> fresh n l -> step V n l n' -> I_log_terms n'.
   Proof.
-    intros H1 H2 Hstep j e.
+    intros H1 H2 Hf Hstep j e.
     pose proof (i_log_terms n H2 j e) as Hold.
-    pose proof (i_role_term V n H1) as Hrt.
+    pose proof (i_role_term n H1) as Hrt.
     inv_step Hstep; simp_upd; auto; intros He.
     - specialize (Hold He). lia.
     - specialize (Hold He). lia.
@@ -360,16 +360,16 @@ Section Log.
     - rewrite term_at_app_l by lia. exact Hpt.
   Qed.
 
-  Lemma I_ae_step n l n' : inv1 V n -> inv2 n -> step V n l n' -> I_ae n'.
+  Lemma I_ae_step n l n' : inv1 n -> inv2 n -> fresh n l -> step V n l n' -> I_ae n'.
   Proof.
-    intros H1 H2 Hstep t ldr prev pt ents lc Hin.
-    pose proof (step_gext n l n' H1 H2 Hstep) as Hg.
+    intros H1 H2 Hf Hstep t ldr prev pt ents lc Hin.
+    pose proof (step_gext n l n' H1 H2 Hf Hstep) as Hg.
     apply (I_ae_stable n n' _ _ _ _ Hg).
     pose proof (i_ae n H2 t ldr prev pt ents lc) as Hold.
     inv_step Hstep; msg_cases Hin; auto.
     (* SendAE *)
     match goal with Hl : role (nodes n ?k) = Leader |- _ =>
-      rewrite (i_leader_log n H2 k Hl); pose proof (i_leader V n H1 k Hl) as Hlead end.
+      rewrite (i_leader_log n H2 k Hl); pose proof (i_leader n H1 k Hl) as Hlead end.
     split; [|split; [|split]].
     - rewrite Hlead. discriminate.
     - rewrite firstn_length, skipn_length. lia.
@@ -377,18 +377,18 @@ Section Log.
     - reflexivity.
   Qed.
 
-  Lemma I_vote_log_ok_step n l n' : inv1 V n -> inv2 n -> step V n l n' -> I_vote_log_ok n'.
+  Lemma I_vote_log_ok_step n l n' : inv1 n -> inv2 n -> fresh n l -> step V n l n' -> I_vote_log_ok n'.
   Proof.
-    intros H1 H2 Hstep t w c vl Hin.
-    pose proof (step_gext n l n' H1 H2 Hstep) as Hg.
+    intros H1 H2 Hf Hstep t w c vl Hin.
+    pose proof (step_gext n l n' H1 H2 Hf Hstep) as Hg.
     apply (log_ok_gext n n' _ Hg).
     pose proof (i_vote_log_ok n H2 t w c vl) as Hold.
     inv_step Hstep; msg_cases Hin; auto; apply (i_log_ok n H2).
   Qed.
 
-  Lemma inv2_step n l n' : inv1 V n -> inv2 n -> step V n l n' -> inv2 n'.
+  Lemma inv2_step n l n' : inv1 n -> inv2 n -> fresh n l -> step V n l n' -> inv2 n'.
   Proof.
-    intros H1 H2 Hstep. constructor.
+    intros H1 H2 Hf Hstep. constructor.
     - eapply I_lead_none_step; eauto.
     - eapply I_llog0_step; eauto.
     - eapply I_llog_terms_step; eauto.
@@ -410,16 +410,17 @@ Section Log.
     - intros j Hj. simpl in Hj. lia.
   Qed.
 
-  Lemma inv12_steps n ls n' : inv1 V n -> inv2 n -> steps V n ls n' -> inv1 V n' /\ inv2 n'.
+  Lemma inv12_steps n ls n' :
+    inv1q V n -> inv2 n -> steps V n ls n' -> inv1q V n' /\ inv2 n'.
   Proof.
     intros H1 H2 Hs. induction Hs; [now split|]. apply IHHs.
-    - eapply inv1_step; eauto.
-    - eapply inv2_step; eauto.
+    - eapply inv1q_step; eauto.
+    - destruct H1 as (H1 & Hq). eapply inv2_step; eauto. eapply fresh_fixed; eauto.
   Qed.
 
   Lemma inv2_reachable n : reachable V n -> inv2 n.
   Proof.
-    intros (ls & Hs). eapply inv12_steps; [apply inv1_init | apply inv2_init | exact Hs].
+    intros (ls & Hs). eapply inv12_steps; [apply inv1q_init | apply inv2_init | exact Hs].
   Qed.
 
   (* ---- log matching ---- *)
